@@ -841,6 +841,10 @@ def int_shim(x=0, *a):
     return int(x, *a)
 
 
+import operator as _op
+for _n in ('__or__', '__and__', '__xor__', '__add__', '__sub__', '__mul__', '__lt__', '__le__', '__eq__', '__neg__'):
+    setattr(int_shim, _n, getattr(_op, _n))          # int.__or__ used as a function (functools.reduce(int.__or__, ...))
+int_shim.bit_length = lambda x: x.bit_length()
 int_shim.from_bytes = lambda b, byteorder='big', signed=False: (
     _from_bytes(list(SBytes(b).b), signed, byteorder == 'big') if isinstance(b, SBytes) else int.from_bytes(b, byteorder, signed=signed))
 
